@@ -80,7 +80,7 @@ def parseCapability (o : UriOracle) (s : String) : Except Err Capability :=
   | some u => .ok (classifyCapability s u)
 
 /-- `Capabilities::read_xml` (HashSet insert = list append; consumers only test membership) -/
-def capsLoop (o : UriOracle) : (fuel : Nat) → (endRaw : String) → (acc : List Capability) → List Ev → Except Err (List Capability × List Ev)
+def capsLoop (c : RCfg) (o : UriOracle) : (fuel : Nat) → (endRaw : String) → (acc : List Capability) → List Ev → Except Err (List Capability × List Ev)
   | 0, _, _, _ => .error .fuel
   | _ + 1, _, _, [] => .error .xml
   | fuel + 1, endRaw, acc, ev :: rest =>
@@ -89,11 +89,12 @@ def capsLoop (o : UriOracle) : (fuel : Nat) → (endRaw : String) → (acc : Lis
     | .start t =>
       if t.is BASE "capability" then
         (match readText t rest with
-         | .ok (s, r) => (match parseCapability o s with
-            | .ok c => capsLoop o fuel endRaw (acc ++ [c]) r
+         | .ok (s, r) => (match parseCapability o (c.tok s) with
+            | .ok v => capsLoop c o fuel endRaw (acc ++ [v]) r
             | .error e => .error e)
          | .error e => .error e)
       else .error .unexpected
+    | .comment => if c.capsComment then capsLoop c o fuel endRaw acc rest else .error .unexpected
     | .end raw => if raw == endRaw then .ok (acc, rest) else .error .unexpected
     | _ => .error .unexpected
 
@@ -109,7 +110,7 @@ structure Hello where
   deriving DecidableEq, Repr, Inhabited
 
 /-- `ServerHello::read_xml` -/
-def helloLoop (o : UriOracle) : (fuel : Nat) → (endRaw : String) → (caps : Option (List Capability)) → (sid : Option Nat) → List Ev → Except Err (Hello × List Ev)
+def helloLoop (c : RCfg) (o : UriOracle) : (fuel : Nat) → (endRaw : String) → (caps : Option (List Capability)) → (sid : Option Nat) → List Ev → Except Err (Hello × List Ev)
   | 0, _, _, _, _ => .error .fuel
   | _ + 1, _, _, _, [] => .error .xml
   | fuel + 1, endRaw, caps, sid, ev :: rest =>
@@ -117,17 +118,17 @@ def helloLoop (o : UriOracle) : (fuel : Nat) → (endRaw : String) → (caps : O
     | .error => .error .xml
     | .start t =>
       if t.is BASE "capabilities" && caps.isNone then
-        (match capsLoop o fuel t.raw [] rest with
-         | .ok (c, r) => helloLoop o fuel endRaw (some c) sid r
+        (match capsLoop c o fuel t.raw [] rest with
+         | .ok (v, r) => helloLoop c o fuel endRaw (some v) sid r
          | .error e => .error e)
       else if t.is BASE "session-id" && sid.isNone then
         (match readText t rest with
-         | .ok (s, r) => (match parseSessionId s with
-            | some n => helloLoop o fuel endRaw caps (some n) r
+         | .ok (s, r) => (match parseSessionId (c.tok s) with
+            | some n => helloLoop c o fuel endRaw caps (some n) r
             | none => .error .parse)
          | .error e => .error e)
       else .error .unexpected
-    | .comment => helloLoop o fuel endRaw caps sid rest
+    | .comment => helloLoop c o fuel endRaw caps sid rest
     | .end raw =>
       if raw == endRaw then
         (match caps, sid with
@@ -145,7 +146,7 @@ def fromXmlHello (c : RCfg) (o : UriOracle) : (fuel : Nat) → (this : Option He
     | .error => .error .xml
     | .start t =>
       if t.is BASE "hello" then
-        (match helloLoop o fuel t.raw none none rest with
+        (match helloLoop c o fuel t.raw none none rest with
          | .ok (v, r) => fromXmlHello c o fuel (some v) r
          | .error e => .error e)
       else .error .unexpected
